@@ -188,10 +188,10 @@ def history_directed(pid, tier, mc):
     x86-64 / AArch64).  -> (directed programs, {program name: heap summary the design model predicts at the end})"""
     hs = mc["histories"]
     r = rng_for(pid + "h")
-    if len(hs) > T(tier, 450, 40000):
+    if len(hs) > T(tier, 450, 5000):
         deepest = max(len(x["h"]) for x in hs)
         longest = [x for x in hs if len(x["h"]) >= deepest]
-        hs = r.sample(longest, min(len(longest), T(tier, 350, 30000))) + r.sample(hs, T(tier, 100, 10000))
+        hs = r.sample(longest, min(len(longest), T(tier, 350, 4000))) + r.sample(hs, T(tier, 100, 1000))
     directed, expect = [], {}
 
     def add(name, x, pad):
@@ -199,12 +199,12 @@ def history_directed(pid, tier, mc):
         expect[name] = x["fin"]
     for i, x in enumerate(hs):
         add("hist%d" % i, x, 0)
-    padded = r.sample(hs, min(len(hs), T(tier, 120, 6000)))
+    padded = r.sample(hs, min(len(hs), T(tier, 120, 1200)))
     sims = mc["sim_histories"]   # includes the unchosen successors TLC evaluated along each random behaviour: sample the deep ones
     if sims:
         deep = max(len(x["h"]) for x in sims)
         sims = [x for x in sims if len(x["h"]) >= 0.6 * deep]
-        sims = r.sample(sims, min(len(sims), T(tier, 16, 600)))
+        sims = r.sample(sims, min(len(sims), T(tier, 16, 200)))
     for pad in (0, 6, 13):
         for i, x in enumerate(sims):
             add("simhist%d_p%d" % (i, pad), x, pad)
